@@ -120,6 +120,12 @@ func newPKI() *pki {
 	os.WriteFile(filepath.Join(dir, "server.crt"), p.server.certPEM(), 0o600)
 	os.WriteFile(filepath.Join(dir, "server.key"), p.server.keyPEM(), 0o600)
 	os.WriteFile(filepath.Join(dir, "ca.crt"), p.ca.certPEM(), 0o600)
+	// the foreign CA is one the HOST trusts (as any public CA would be): it is the only entry of the process's system trust
+	// store.  A server that must admit clients of the configured CA only may not fall back on that store.
+	os.WriteFile(filepath.Join(dir, "hosttrust.pem"), p.foreignCA.certPEM(), 0o600)
+	os.Mkdir(filepath.Join(dir, "hosttrust.d"), 0o700)
+	os.Setenv("SSL_CERT_FILE", filepath.Join(dir, "hosttrust.pem"))
+	os.Setenv("SSL_CERT_DIR", filepath.Join(dir, "hosttrust.d"))
 	return p
 }
 
@@ -943,7 +949,7 @@ func modeRaceStress(args []string) {
 	var ops int64
 	cmds := [][]string{{"PING"}, {"SET", "k", "v"}, {"GET", "k"}, {"INCR", "n"}, {"CONFIG", "SET", "maxmemory", "1"}, {"CONFIG", "GET", "maxmemory", "port"}, {"SELECT", "1"},
 		{"RPUSH", "l", "a"}, {"LPOP", "l"}, {"SADD", "s", "a"}, {"SMEMBERS", "s"}, {"ZADD", "z", "1", "a"}, {"ZRANGE", "z", "0", "-1"}, {"HSET", "h", "f", "v"}, {"HGETALL", "h"},
-		{"MSET", "a", "1", "b", "2"}, {"MGET", "a", "b"}, {"KEYS", "*"}, {"DEL", "k"}, {"ECHO", "x"}, {"STRLEN", "k"}, {"APPEND", "k", "x"}, {"WHOAMI"}}
+		{"MSET", "a", "1", "b", "2"}, {"MGET", "a", "b"}, {"KEYS", "*"}, {"DEL", "k"}, {"ECHO", "x"}, {"STRLEN", "k"}, {"APPEND", "k", "x"}, {"WHOAMI"}, {"AUTH", "x"}, {"AUTH", "u", "x"}}
 	for w := 0; w < clients; w++ {
 		wg.Add(1)
 		go func(w int) {
@@ -997,6 +1003,16 @@ func modeRaceStress(args []string) {
 			}
 		}(w)
 	}
+	// credential rotation through the public API while clients authenticate (AUTH, TLS certificate checks)
+	wg.Add(1)
+	go func() {
+		defer wg.Done()
+		for time.Now().Before(deadline) {
+			s.srv.ClearAuthenticators()
+			s.srv.AddAuthenticator(auth.NewCertificateAuthenticatorWith(auth.WithCommonName(ruleName)))
+			time.Sleep(3 * time.Millisecond)
+		}
+	}()
 	// registry enumeration
 	wg.Add(1)
 	go func() {
